@@ -6,6 +6,7 @@ import (
 	"github.com/brutella/hc/log"
 	"github.com/brutella/hc/verifhook"
 	"net"
+	"sync"
 	"time"
 
 	"bufio"
@@ -30,6 +31,9 @@ type Connection struct {
 
 	// Buffers encrypted bytes read from the connection across calls
 	encrypted *bufio.Reader
+
+	// Serializes writes because responses and notifications are written by different goroutines
+	writeMutex sync.Mutex
 }
 
 // NewConnection returns a hap connection.
@@ -124,6 +128,11 @@ func (con *Connection) DecryptedRead(b []byte) (int, error) {
 func (con *Connection) Write(b []byte) (int, error) {
 	verifhook.At("conn.write.enter")
 	defer verifhook.At("conn.write.done")
+
+	// The frame counter and the order of the frames on the wire must not get mixed up by concurrent writes
+	con.writeMutex.Lock()
+	defer con.writeMutex.Unlock()
+
 	if con.getEncrypter() != nil {
 		return con.EncryptedWrite(b)
 	}
